@@ -53,3 +53,9 @@ Example c13_nonvacuous :
   let c := {| st := StRead; request_count := 2; wait_in := true; read_idle_ts := 10; write_request_ts := 0; close_timeout_ts := 0 |} in
   st (seconds l c [Silence; Silence] 10) = StRead /\ st (seconds l c [Silence; Silence; Silence] 10) = StGone.
 Proof. vm_compute. split; reflexivity. Qed.
+
+(* the lingering-close state is one of the waiting states above (StClose, limit [linger]); that the sweep of h1.c releases it, and after how many
+   seconds, is re-read from the source on every run (Gen/GenH1.v) *)
+From LV Require Import Gen.GenH1.
+Theorem lingering_close_is_swept_as_modelled : lingering_close_is_released_by_the_sweep = true /\ (0 < HTTP_LINGER_TIMEOUT)%Z.
+Proof. split; reflexivity. Qed.
